@@ -1148,6 +1148,18 @@ func (w *idxWalker) site(n ast.Expr, facts []scandfa.Fact) {
 	lenX := w.lenOf(base)
 	switch x := n.(type) {
 	case *ast.IndexExpr:
+		// an index of an 8-bit unsigned type into an array of at least 256 elements is in range by its type
+		if it := w.info.TypeOf(x.Index); it != nil {
+			if b, ok := it.Underlying().(*types.Basic); ok && (b.Kind() == types.Uint8) {
+				at := w.info.TypeOf(x.X)
+				if p, ok := at.Underlying().(*types.Pointer); ok {
+					at = p.Elem()
+				}
+				if arr, ok := at.Underlying().(*types.Array); ok && arr.Len() >= 256 {
+					return
+				}
+			}
+		}
 		i, ok := w.pr.Lin(x.Index)
 		if !ok {
 			w.note(key, n.Pos(), fmt.Sprintf("%s: the index is not a linear expression the prover can bound", types.ExprString(n)))
